@@ -376,7 +376,7 @@ func main() {
 		}
 		ecases, dcasesN, subMax, kmax, docMax := 40, 220, 12, 60, 1500
 		if o.Tier == "thorough" {
-			ecases, dcasesN, subMax, kmax, docMax = 900, 6000, 1<<30, 160, 20000
+			ecases, dcasesN, subMax, kmax, docMax = 300, 1500, 1<<30, 120, 4000
 		}
 		st := &stats{Kinds: map[string]int{}}
 		nfail := 0
